@@ -19,4 +19,5 @@ void h_work_init_user(void) {
   }
   if (g_ret != 0 && in_iworkptr == 0) __CPROVER_assert(0, "canary: first request does not fit");
   if (g_ret != 0 && in_iworkptr != 0) __CPROVER_assert(0, "canary: second request does not fit");
+  if (g_ret != 0 && in_iworkptr != 0 && g_dsz + g_used0 + g_isz < g_size0) __CPROVER_assert(0, "canary: block fits but its alignment shift does not -> reported as failure");
 }
